@@ -100,18 +100,35 @@ func checkHistory(evs []event, ample bool, backend bool, sizes map[string]map[in
 			puts[e.key] = append(puts[e.key], e)
 		}
 	}
+	// A key whose file the harness damaged is "healed" by the first upload of
+	// the workload that is acknowledged: that upload replaces the damaged file,
+	// and a request invoked after the acknowledgement can only see the new one
+	// (a reader that looked the key up earlier and then fails on the damaged
+	// file must not drop the NEW entry). From then on the key is judged like
+	// any other.
+	healed := map[string]int64{}
+	for k, ps := range puts {
+		for _, p := range ps {
+			if p.ok && !strings.Contains(p.detail, "(pre-state)") && (healed[k] == 0 || p.res < healed[k]) {
+				healed[k] = p.res
+			}
+		}
+	}
+	damaged := func(e event) bool {
+		return corruptKeys[e.key] && !(healed[e.key] > 0 && e.inv > healed[e.key])
+	}
 	for _, e := range evs {
 		if e.op != "get" {
-			if (e.op == "contains") && !e.ok && ample && !corruptKeys[e.key] {
+			if (e.op == "contains") && !e.ok && ample && !damaged(e) {
 				for _, p := range puts[e.key] {
-					if p.ok && p.res < e.inv {
+					if p.ok && p.res < e.inv && !(corruptKeys[e.key] && strings.Contains(p.detail, "(pre-state)")) {
 						return fmt.Errorf("existence check of %s invoked at %d answered 'absent' although put #%d was acknowledged at %d (no space pressure)", e.key, e.inv, p.val, p.res)
 					}
 				}
 			}
 			continue
 		}
-		if corruptKeys[e.key] {
+		if damaged(e) {
 			// The file of this key was damaged behind the cache's back; what a read
 			// of it returns is not C07's question (headerless entries carry no
 			// redundancy). Index and accounting must survive: checked at quiescence.
@@ -121,9 +138,9 @@ func checkHistory(evs []event, ample bool, backend bool, sizes map[string]map[in
 		case e.val == -2:
 			return fmt.Errorf("read of %s returned bytes that are not the complete value of any single upload: %s", e.key, e.detail)
 		case e.val == -1:
-			if ample && !corruptKeys[e.key] {
+			if ample && !damaged(e) {
 				for _, p := range puts[e.key] {
-					if p.ok && p.res < e.inv {
+					if p.ok && p.res < e.inv && !(corruptKeys[e.key] && strings.Contains(p.detail, "(pre-state)")) {
 						return fmt.Errorf("read of %s invoked at %d missed although put #%d was acknowledged at %d (no space pressure)", e.key, e.inv, p.val, p.res)
 					}
 				}
@@ -324,7 +341,7 @@ func TestC07FreeRunning(t *testing.T) {
 		for w := 0; w < nworkers; w++ {
 			var ops []wop
 			for i := 0; i < nops; i++ {
-				kind := rapid.SampledFrom([]string{"put", "put", "get", "get", "get", "contains", "findmissing", "filler", "vac"}).Draw(t, "op")
+				kind := rapid.SampledFrom([]string{"put", "put", "get", "get", "get", "getz", "getz", "contains", "findmissing", "filler", "vac"}).Draw(t, "op")
 				if kind == "filler" && !tight {
 					kind = "get"
 				}
@@ -413,6 +430,50 @@ func TestC07FreeRunning(t *testing.T) {
 						}
 						e.res = h.tick()
 						h.add(e)
+					case "getz":
+						// the zstd form of a CAS blob (compressed-blobs reads, Accept-Encoding:
+						// zstd): each stream must decode, with both decoders, to the blob
+						if kind != cache.CAS {
+							continue
+						}
+						e := event{op: "get", key: key, inv: h.tick(), val: -1}
+						rc, _, err := s.Cache.GetZstd(context.Background(), hash, int64(len(casData[op.key])), 0)
+						if rc != nil && err == nil {
+							var buf bytes.Buffer
+							tmp := make([]byte, max(1+op.size, len(casData[op.key])/512+1))
+							var rerr error
+							for first := true; ; first = false {
+								n, er := rc.Read(tmp[:map[bool]int{true: 1, false: len(tmp)}[first]])
+								if first && er == nil {
+									// a client that is slow to take the rest: the server side sits in
+									// the middle (for small blobs: at the final flush) of its stream
+									// while other requests start and finish
+									time.Sleep(time.Duration(50+op.size%400) * time.Microsecond)
+								}
+								buf.Write(tmp[:n])
+								if er != nil {
+									if er != io.EOF {
+										rerr = er
+									}
+									break
+								}
+								if buf.Len()%3 == 0 {
+									time.Sleep(time.Microsecond)
+								}
+							}
+							rc.Close()
+							e.ok = true
+							dec, derr := gen.DecodeBoth(buf.Bytes())
+							e.val = decodeValue(op.key, dec)
+							if rerr != nil || derr != nil {
+								e.val = -2
+							}
+							e.detail = fmt.Sprintf("len=%d zstd-stream=%d bytes readerr=%v decode=%v", len(dec), buf.Len(), rerr, derr)
+						} else if rc != nil {
+							rc.Close()
+						}
+						e.res = h.tick()
+						h.add(e)
 					case "contains":
 						e := event{op: "contains", key: key, inv: h.tick()}
 						e.ok, _ = s.Cache.Contains(context.Background(), kind, hash, -1)
@@ -451,6 +512,13 @@ func TestC07FreeRunning(t *testing.T) {
 		}
 		if px != nil {
 			px.Wait()
+		}
+		// read-back after the last response: what was acknowledged must be there
+		for k := 0; k < nkeys; k++ {
+			e := event{op: "contains", key: cache.LookupKey(keyKindOf[k], keyHash[k]), inv: h.tick(), detail: "(read-back)"}
+			e.ok, _ = s.Cache.Contains(context.Background(), keyKindOf[k], keyHash[k], -1)
+			e.res = h.tick()
+			h.add(e)
 		}
 		evs := h.events
 		overlap := false
